@@ -20,14 +20,19 @@ from harness.util import import_df, attempt
 df = import_df()
 
 SCALES = [1e-12, 1e-9, 1e-6, 1e-3, 1.0, 1e3, 1e6]
-DIM_POOL = ["x", "y", "z", "a", "b", "t", "r0", "long_name", "X", "q_1", "u", "w"]
+DIM_POOL = ["x", "y", "z", "a", "b", "t", "r0", "long_name", "X", "q_1", "u", "w", "V", "n", "r", "v", "T", "cell",
+            "pmin", "nvdim"]
 UNIT_POOL = ["m", "nm", "s", "T", "um", "arb. u.", "", "A/m", "rad"]
 LABEL_POOLS = [["x", "y", "z", "w4"], ["a", "b", "c", "d"], ["mx", "my", "mz", "mt"], ["v0", "v1", "v2", "v3"],
-               ["re", "im", "p3", "p4"], ["z", "y", "x", "t"], ["c0", "C0", "c_0", "c00"]]
-DTYPES = ["float64", "float64", "float64", "float32", "int64", "int32", "complex128", "complex64", "bool"]
+               ["re", "im", "p3", "p4"], ["z", "y", "x", "t"], ["c0", "C0", "c_0", "c00"], ["p", "pq", "pqr", "pqrs"],
+               ["qa", "q", "qab", "qabc"]]
+LABEL_POOLS = [pool for pool in LABEL_POOLS if not any(hasattr(df.Field, lab) for lab in pool)]
+DTYPES = ["float64", "float64", "float64", "float32", "int64", "int32", "complex128", "complex64", "bool", "uint8",
+          "uint16", "int8"]
 NP_RTOL, NP_ATOL = F(1, 10 ** 5), F(0)
 TAG_SLABEL = "C17-scalar-label-lost"
 TAG_VDIMSDIM = "C17-dim-named-vdims"
+TAG_UNITSDIM = "C17-dim-named-units"
 
 
 def S(x):
@@ -49,9 +54,16 @@ def gen_values(rng, dtype, count, exact):
     for _ in range(count):
         if dtype.startswith("float"):
             v = rng.randint(-4096, 4096) / 64 if (exact or rng.random() < 0.3) else rng.uniform(-1, 1) * 10 ** rng.randint(-9, 9)
+            if dtype == "float64" and rng.random() < 0.1:
+                v = v * 2.0 ** rng.choice([-200, -60, 90, 300])        # tiny / huge magnitudes
             out.append(float(np.dtype(dtype).type(v)))
-        elif dtype.startswith("int"):
-            out.append(rng.randint(-1000, 1000))
+        elif dtype.startswith(("int", "uint")):
+            info = np.iinfo(dtype)
+            r = rng.random()
+            if r < 0.15:
+                out.append(int(rng.choice([info.min, info.max, info.max - 1, info.min + 1])))    # overflow limits
+            else:
+                out.append(rng.randint(max(int(info.min), -1000), min(int(info.max), 1000)))
         elif dtype == "bool":
             out.append(rng.randint(0, 1))
         else:
@@ -69,15 +81,31 @@ def gen_field(rng, exact, tier, nd=None, nvdim=None, min_n=1):
         if math.prod(n) <= (72 if tier == "quick" else 200):
             break
     p1, p2 = [], []
-    if exact:
+    extra = {}
+    if exact and rng.random() < 0.2:
+        # integer-typed corners (Python ints / int64 arrays), fractional cells, half-integer centres
+        n = [rng.choice([1, 2, 4]) if rng.random() < 0.7 else k for k in n]
+        for i, k in enumerate(n):
+            ext = rng.randint(1, 9) * (k if k not in (1, 2, 4) else 1)
+            lo = rng.randint(-20, 20)
+            hi = lo + ext
+            if rng.random() < 0.4:
+                lo, hi = hi, lo
+            p1.append(F(lo))
+            p2.append(F(hi))
+        extra["corner_type"] = rng.choice(["int", "int64arr", "int32arr"])
+        tf = tfq(2.0 ** -rng.choice([20, 30, 40]))
+    elif exact:
+        e = rng.choice([0, 0, 0, -200, -60, 60, 300])       # magnitudes 2^-200 .. 2^300: any absolute tolerance shows
+        extra["pow2"] = e
         for k in n:
             cell = F(rng.choice([1, 3, 5, 7]), 2 ** rng.randint(0, 4))
             lo = F(rng.randint(-256, 256), 8)
             hi = lo + k * cell
             if rng.random() < 0.4:
                 lo, hi = hi, lo
-            p1.append(lo)
-            p2.append(hi)
+            p1.append(lo * F(2) ** e)
+            p2.append(hi * F(2) ** e)
         tf = tfq(2.0 ** -rng.choice([20, 30, 40]))
     else:
         s = rng.choice(SCALES)
@@ -105,8 +133,10 @@ def gen_field(rng, exact, tier, nd=None, nvdim=None, min_n=1):
     dtype = rng.choice(DTYPES)
     unit = rng.choice([None, None, "A/m", "T", "J/m3", ""])
     data = gen_values(rng, dtype, math.prod(n) * nvdim, exact)
+    extra["n_type"] = rng.choice(["list", "list", "tuple", "uint8", "int32", "int64arr", "uint16", "int8"])
+    extra["nvdim_type"] = rng.choice([None, None, None, "int64", "int8", "uint16", "uint8", "int32"])
     return dict(exact=exact, p1=[S(x) for x in p1], p2=[S(x) for x in p2], dims=dims, units=units, tf=S(tf),
-                n=n, nvdim=nvdim, vdims=vdims, dtype=dtype, unit=unit, data=data)
+                n=n, nvdim=nvdim, vdims=vdims, dtype=dtype, unit=unit, data=data, **extra)
 
 
 def geom(fs):
@@ -163,13 +193,50 @@ def gen_imports(rng, fs, tier):
                 coords[str(a)] = [S(v) for v in vals]
         sub = rng.choice([list(GEO_ATTRS), list(GEO_ATTRS), ["pmin", "pmax"], ["cell", "pmin"], ["cell", "pmax"]])
         out.append(("even-coords", dict(coords=coords, del_attrs=sub)))
+    # coordinate dtypes: float32 (dyadic: exact; decimal: single-precision tolerance), unsigned / narrow integers
+    r = rng.random()
+    if r < 0.25:
+        out.append(("f32-dyadic-coords", dict(
+            coords={str(a): [S(F(rng.randint(-64, 64), 4) + j * F(rng.choice([1, 2, 3, 6]), 4)) for j in range(fs["n"][a])]
+                    for a in range(nd)}, coord_dtype="float32", del_attrs=list(GEO_ATTRS))))
+        for a in range(nd):        # one progression per axis: recompute with a fixed start / step
+            x0, c = F(rng.randint(-64, 64), 4), F(rng.choice([1, 2, 3, 6]), 4)
+            out[-1][1]["coords"][str(a)] = [S(x0 + j * c) for j in range(fs["n"][a])]
+    elif r < 0.45:
+        coords = {}
+        for a in range(nd):
+            c = round(rng.uniform(0.2, 9.0), 2)
+            x0 = round(rng.uniform(-8, 8), 1) * c
+            coords[str(a)] = [S(F(float(np.float32(x0 + j * c)))) for j in range(fs["n"][a])]
+        out.append(("f32-decimal-coords", dict(coords=coords, coord_dtype="float32", del_attrs=list(GEO_ATTRS),
+                                               inexact=True, f32=True)))
+    elif r < 0.6:
+        dt = rng.choice(["uint8", "int16", "uint32", "int64"])
+        coords = {}
+        for a in range(nd):
+            x0, c = rng.randint(0, 5), rng.randint(1, 4)
+            coords[str(a)] = [S(x0 + j * c) for j in range(fs["n"][a])]
+        out.append(("typed-int-coords", dict(coords=coords, int_coords=True, coord_dtype=dt, del_attrs=list(GEO_ATTRS))))
+    # attributes as tuples / lists / numpy scalars / float32 or integer containers; typed nvdim and tolerance
+    if rng.random() < 0.6:
+        kinds = ["tuple", "list", "npscalars", "f32array", "intlist", "ndarray"]
+        rp = {a: rng.choice(kinds) for a in GEO_ATTRS}
+        rp["nvdim"] = rng.choice(["int", "uint8", "int16", "int64", "uint32"])
+        rp["tolerance_factor"] = rng.choice(["np", "py"])
+        sub = rng.choice([[], [], ["pmin"], ["pmax"], ["cell"], ["pmin", "pmax"]])
+        out.append(("attr-types", dict(del_attrs=sub, attr_repr=rp)))
+    if rng.random() < 0.15 and all(k >= 2 for k in fs["n"]):
+        # decreasing coordinates while the geometric attributes are still there
+        a = rng.randrange(nd)
+        vals = [hi[a] - (j + F(1, 2)) * cell[a] for j in range(fs["n"][a])]
+        out.append(("decreasing-attrs-kept", dict(coords={str(a): [S(v) for v in vals]}, del_attrs=[])))
     if rng.random() < 0.3:
         out.append(("int-coords", dict(coords={str(a): [S(3 * j - 4) for j in range(fs["n"][a])] for a in range(nd)},
                                        del_attrs=list(GEO_ATTRS), int_coords=True)))
     if rng.random() < 0.3:
         out.append(("dropped-coords", dict(drop_coords=sorted(rng.sample(range(nd), rng.randint(1, nd))),
                                            del_attrs=list(GEO_ATTRS))))
-    if rng.random() < 0.2 and all(k >= 2 for k in fs["n"]):
+    if rng.random() < 0.3 and all(k >= 2 for k in fs["n"]):
         a = rng.randrange(nd)
         vals = [hi[a] - (j + F(1, 2)) * cell[a] for j in range(fs["n"][a])]
         out.append(("decreasing", dict(coords={str(a): [S(v) for v in vals]}, del_attrs=list(GEO_ATTRS))))
@@ -257,6 +324,30 @@ def generate(rng, tier):
         fs = gen_field(rng, k % 2 == 0, tier)
         fs["np_nvdim"] = True
         cases.append(dict(kind="round", field=fs))
+    # used, then changed in place, then exported / round-tripped
+    for k in range(nf):
+        fs = gen_field(rng, k % 2 == 0, tier)
+        cases.append(dict(kind="inplace", field=fs, ops=gen_inplace_ops(rng, fs), then=rng.choice(["export", "round"]),
+                          unit_arg=rng.choice([None, None, "mT"])))
+    # two fields of equal shape through the same calls, one after the other
+    for k in range(nf // 2):
+        fa = gen_field(rng, k % 2 == 0, tier)
+        fb = gen_field(rng, k % 2 == 0, tier, nd=len(fa["n"]), nvdim=fa["nvdim"])
+        fb["n"] = list(fa["n"])
+        if not fb.get("corner_type"):
+            lo_, hi_, cell_ = geom(fb)
+            # keep fb's own corners; only the cell counts are shared
+        fb["dtype"] = fa["dtype"]
+        fb["data"] = gen_values(rng, fb["dtype"], math.prod(fb["n"]) * fb["nvdim"], fb["exact"])
+        fb["exact"] = fb["exact"] and (not fb.get("corner_type"))
+        cases.append(dict(kind="pair", field=fa, second=fb))
+    # second generation: export -> import -> export -> import
+    for k in range(nf // 2):
+        cases.append(dict(kind="secondgen", field=gen_field(rng, k % 2 == 0, tier)))
+    # a geometric dimension called 'units' (reported deviation; oracle only, tagged)
+    fs = gen_field(rng, True, tier, nd=2)
+    fs["dims"] = ["units", "y"]
+    cases.append(dict(kind="round", field=fs))
     # a geometric dimension called 'vdims' (known finding C17-dim-named-vdims; oracle only)
     fs = gen_field(rng, True, tier, nd=2, nvdim=1)
     fs["dims"] = ["vdims", "y"]
@@ -274,11 +365,30 @@ def np_values(fs):
     return arr.reshape(*fs["n"], fs["nvdim"])
 
 
+def typed_n(n, kind):
+    if kind == "tuple":
+        return tuple(n)
+    if kind == "int64arr":
+        return np.array(n, dtype=np.int64)
+    if kind in ("uint8", "int32", "uint16", "int8"):
+        return [np.dtype(kind).type(k) for k in n]
+    return list(n)
+
+
 def build_field(fs):
-    region = df.Region(p1=[fl(x) for x in fs["p1"]], p2=[fl(x) for x in fs["p2"]], dims=fs["dims"],
-                       units=fs["units"], tolerance_factor=float(F(fs["tf"])))
-    mesh = df.Mesh(region=region, n=fs["n"])
+    ct = fs.get("corner_type")
+    if ct == "int":
+        p1, p2 = [int(F(x)) for x in fs["p1"]], tuple(int(F(x)) for x in fs["p2"])
+    elif ct in ("int64arr", "int32arr"):
+        dt = np.int64 if ct == "int64arr" else np.int32
+        p1, p2 = np.array([int(F(x)) for x in fs["p1"]], dtype=dt), np.array([int(F(x)) for x in fs["p2"]], dtype=dt)
+    else:
+        p1, p2 = [fl(x) for x in fs["p1"]], [fl(x) for x in fs["p2"]]
+    region = df.Region(p1=p1, p2=p2, dims=fs["dims"], units=fs["units"], tolerance_factor=float(F(fs["tf"])))
+    mesh = df.Mesh(region=region, n=typed_n(fs["n"], fs.get("n_type")))
     nvdim = np.int64(fs["nvdim"]) if fs.get("np_nvdim") else fs["nvdim"]
+    if fs.get("nvdim_type"):
+        nvdim = np.dtype(fs["nvdim_type"]).type(fs["nvdim"])
     return df.Field(mesh, nvdim=nvdim, value=np_values(fs), vdims=fs["vdims"], dtype=np.dtype(fs["dtype"]),
                     unit=fs["unit"])
 
@@ -375,6 +485,8 @@ def apply_mods(xa, fs, mods):
         keep = dict(xa[d].attrs)
         fr = [F(v) for v in vals]
         arr = np.array([int(v) for v in fr]) if mods.get("int_coords") else np.array([float(v) for v in fr])
+        if mods.get("coord_dtype"):
+            arr = arr.astype(np.dtype(mods["coord_dtype"]))
         xa = xa.assign_coords({d: arr})
         xa[d].attrs.update(keep)
     for a in mods.get("drop_coords", []):
@@ -390,6 +502,29 @@ def apply_mods(xa, fs, mods):
         xa.attrs.pop(a, None)
     if "set_nvdim" in mods:
         xa.attrs["nvdim"] = mods["set_nvdim"]
+    for key, how in mods.get("attr_repr", {}).items():
+        if key not in xa.attrs:
+            continue
+        v = xa.attrs[key]
+        if key in GEO_ATTRS:
+            vals = np.asarray(v).tolist()
+            if how == "tuple":
+                v = tuple(float(x) for x in vals)
+            elif how == "list":
+                v = [float(x) for x in vals]
+            elif how == "npscalars":
+                v = [np.float64(x) for x in vals]
+            elif how == "f32array" and all(float(np.float32(x)) == float(x) for x in vals):
+                v = np.array(vals, dtype=np.float32)
+            elif how == "intlist" and all(float(x) == int(x) for x in vals):
+                v = [int(x) for x in vals]
+            else:
+                v = np.array(vals, dtype=float)
+        elif key == "nvdim":
+            v = np.dtype(how).type(v) if how != "int" else int(v)
+        elif key == "tolerance_factor":
+            v = np.float64(v) if how == "np" else float(v)
+        xa.attrs[key] = v
     return xa
 
 
@@ -411,8 +546,8 @@ def max_unevenness(coords):
     return worst, accepted_by_numpy
 
 
-def close(a, b, scale, exact):
-    return a == b if exact else abs(a - b) <= F(1, 10 ** 9) * scale
+def close(a, b, scale, exact, rel=F(1, 10 ** 9)):
+    return a == b if exact else abs(a - b) <= rel * scale
 
 
 def same_field(fo, go, lo_hi_exact):
@@ -435,11 +570,145 @@ def same_field(fo, go, lo_hi_exact):
     return bad
 
 
+def export_oracle(st, o, unit_arg, exact):
+    """the export clauses of the property, for a field in the observed state st (observe_field) and the
+    observed DataArray o"""
+    bad = []
+    nd = len(st["n"])
+    lo, hi = st["pmin"], st["pmax"]
+    cell = [(h - l) / k for l, h, k in zip(lo, hi, st["n"])]
+    sc = [max(abs(a), abs(b), b - a) for a, b in zip(lo, hi)]
+    if o["dims"] != st["dims"] + (["vdims"] if st["nvdim"] > 1 else []) or \
+            o["shape"] != st["n"] + ([st["nvdim"]] if st["nvdim"] > 1 else []):
+        bad.append("export-dims")
+    for a in range(nd):
+        want = [lo[a] + (j + F(1, 2)) * cell[a] for j in range(st["n"][a])]
+        if a >= len(o["coords"]) or len(o["coords"][a]) != len(want) or not all(
+                close(x, w, sc[a], exact) for x, w in zip(o["coords"][a], want)):
+            bad.append("export-coords-not-centres")
+    if o["cunits"] != st["units"]:
+        bad.append("export-coord-units")
+    if st["nvdim"] > 1 and o["vdims"] != st["vdims"]:
+        bad.append("export-component-labels")
+    if o["a_cell"] is None or len(o["a_cell"]) != nd or not all(close(x, w, s_, exact) for x, w, s_ in zip(o["a_cell"], cell, sc)):
+        bad.append("export-attr-cell")
+    if o["a_pmin"] != lo or o["a_pmax"] != hi:
+        bad.append("export-attr-corners")
+    if o["a_nvdim"] != st["nvdim"]:
+        bad.append("export-attr-nvdim")
+    if o["a_units"] != (unit_arg or st["unit"]):
+        bad.append("export-attr-unit")
+    if o["a_tf"] != st["tf"]:
+        bad.append("export-attr-tolerance")
+    if o["data"] != st["data"] or o["dtype"] != st["dtype"]:
+        bad.append("export-values")
+    return bad
+
+
+def state_fs(st):
+    """an observed field state in the shape fspec_coq expects"""
+    return dict(p1=[S(x) for x in st["pmin"]], p2=[S(x) for x in st["pmax"]], dims=st["dims"], units=st["units"],
+                tf=S(st["tf"]), n=st["n"], nvdim=st["nvdim"], vdims=st["vdims"], dtype=st["dtype"], unit=st["unit"])
+
+
+def attrs_snapshot(xa):
+    """caller-supplied attribute containers: type and contents"""
+    return {k: (type(v).__name__, repr(np.asarray(v).tolist()) if not isinstance(v, str) and v is not None else repr(v))
+            for k, v in xa.attrs.items()}
+
+
+def use_field(f):
+    """exercise everything that might be cached before the field / mesh is changed in place"""
+    m = f.mesh
+    _ = (m.cell, m.dV, m.region.edges, m.region.center, m.cells, m.vertices, len(m), f.norm, f.mean())
+    _ = m.index2point(tuple(0 for _ in m.n))
+    _ = m.point2index(m.region.center)
+    xa0 = f.to_xarray()
+    _ = attempt(lambda: df.Field.from_xarray(xa0))
+    for i, pt in enumerate(m):
+        if i > 2:
+            break
+
+
+def apply_inplace(f, ops):
+    """public in-place calls; returns the names of the ones that went through"""
+    done = []
+    for op in ops:
+        name = op["op"]
+        m = f.mesh
+
+        def go():
+            if name == "mesh.translate":
+                m.translate([fl(v) for v in op["v"]], inplace=True)
+            elif name == "region.translate":
+                m.region.translate([fl(v) for v in op["v"]], inplace=True)
+            elif name == "mesh.scale":
+                m.scale(op["f"] if not isinstance(op["f"], list) else list(op["f"]), inplace=True)
+            elif name == "region.scale":
+                m.region.scale(op["f"], inplace=True)
+            elif name == "mesh.rotate90":
+                d = m.region.dims
+                m.rotate90(d[op["a"]], d[op["b"]], k=op["k"], inplace=True)
+            elif name == "field.rotate90":
+                d = m.region.dims
+                f.rotate90(d[op["a"]], d[op["b"]], k=op["k"], inplace=True)
+            elif name == "array.write":
+                idx = tuple(i % k for i, k in zip(op["idx"], f.array.shape[:-1]))
+                f.array[idx] = np.asarray(f.array[idx][::-1]).copy() if f.nvdim > 1 else f.array[idx]
+                f.array[tuple(0 for _ in idx)] = f.array[idx]
+                flatv = f.array.reshape(-1)
+                flatv[op["idx"][0] % flatv.size] = flatv[-1]
+            elif name == "valid":
+                f.valid = bool(op["v"])
+        st_, _ = attempt(go)
+        if st_ == "ok":
+            done.append(name)
+    return done
+
+
+def gen_inplace_ops(rng, fs):
+    nd = len(fs["n"])
+    e = F(2) ** (fs.get("pow2") or 0)
+    lo, hi, cell = geom(fs)
+    ops = []
+    for _ in range(rng.randint(1, 3)):
+        kind = rng.choice(["mesh.translate", "region.translate", "mesh.scale", "region.scale", "mesh.rotate90",
+                           "field.rotate90", "array.write", "array.write", "valid"])
+        if kind.endswith("translate"):
+            ops.append(dict(op=kind, v=[S(F(rng.randint(-64, 64), 4) * (e if fs["exact"] else c)) for c in cell]))
+        elif kind.endswith("scale"):
+            ops.append(dict(op=kind, f=rng.choice([2, 0.5, -1, -2, 4, 0.25, -0.5, 1.5])))
+        elif kind.endswith("rotate90"):
+            if nd < 2:
+                continue
+            a, b = rng.sample(range(nd), 2)
+            ops.append(dict(op=kind, a=a, b=b, k=rng.choice([1, 3, -1, 2, 5])))
+        elif kind == "array.write":
+            ops.append(dict(op=kind, idx=[rng.randint(0, 8) for _ in range(nd)]))
+        else:
+            ops.append(dict(op=kind, v=rng.random() < 0.5))
+    return ops
+
+
 def run_case(c):
+    rec = _run_case(c)
+    fs = c.get("field") if isinstance(c, dict) else None
+    if fs and "units" in fs.get("dims", []):
+        # xa[dim].units resolves to the coordinate itself for a dimension called 'units' (reported deviation)
+        rec["tags"] = [TAG_UNITSDIM]
+        rec["coq"] = None
+        if rec["oracle"]:
+            rec["oracle"] = ["dim-named-units-rejected"]
+    return rec
+
+
+def _run_case(c):
     kind = c["kind"]
     rec = dict(kind=kind, case=c, oracle=[], tags=[])
     if kind == "raw":
         return run_raw(c, rec)
+    if kind in ("inplace", "pair", "secondgen"):
+        return run_state(c, rec)
     fs = c["field"]
     exact = fs["exact"]
     f = build_field(fs)
@@ -452,30 +721,15 @@ def run_case(c):
         xa = f.to_xarray(unit=c["unit_arg"]) if c["unit_arg"] is not None else f.to_xarray()
         o = observe_da(xa)
         bad = rec["oracle"]
-        want_dims = fs["dims"] + (["vdims"] if fs["nvdim"] > 1 else [])
-        if o["dims"] != want_dims or o["shape"] != fs["n"] + ([fs["nvdim"]] if fs["nvdim"] > 1 else []):
-            bad.append("export-dims")
-        for a in range(nd):
-            want = [lo[a] + (j + F(1, 2)) * cell[a] for j in range(fs["n"][a])]
-            if a >= len(o["coords"]) or len(o["coords"][a]) != len(want) or not all(
-                    close(x, w, sc[a], exact) for x, w in zip(o["coords"][a], want)):
-                bad.append("export-coords-not-centres")
-        if o["cunits"] != fs["units"]:
-            bad.append("export-coord-units")
-        if fs["nvdim"] > 1 and o["vdims"] != fo["vdims"]:
-            bad.append("export-component-labels")
-        if o["a_cell"] is None or len(o["a_cell"]) != nd or not all(close(x, w, s, exact) for x, w, s in zip(o["a_cell"], cell, sc)):
-            bad.append("export-attr-cell")
-        if o["a_pmin"] != lo or o["a_pmax"] != hi:
-            bad.append("export-attr-corners")
-        if o["a_nvdim"] != fs["nvdim"]:
-            bad.append("export-attr-nvdim")
-        if o["a_units"] != (c["unit_arg"] or fs["unit"]):
-            bad.append("export-attr-unit")
-        if o["a_tf"] != F(fs["tf"]):
-            bad.append("export-attr-tolerance")
-        if o["data"] != fo["data"] or o["dtype"] != fs["dtype"]:
-            bad.append("export-values")
+        want = dict(fo, pmin=lo, pmax=hi, n=fs["n"], dims=fs["dims"], units=fs["units"], tf=F(fs["tf"]), nvdim=fs["nvdim"],
+                    dtype=fs["dtype"], unit=fs["unit"])
+        bad += export_oracle(want, o, c["unit_arg"], exact)
+        # the field is untouched by the export and a second export gives the same DataArray
+        if observe_field(f) != fo:
+            bad.append("export-operand-changed")
+        xa2 = f.to_xarray(unit=c["unit_arg"]) if c["unit_arg"] is not None else f.to_xarray()
+        if observe_da(xa2) != o:
+            bad.append("export-not-repeatable")
         rec["oracle"] = sorted(set(bad))
         rec.update(obs=short(o), coq=f'CExport {g.b(exact)} {fspec_coq(fs, fo["data"])} {ostr(c["unit_arg"])} {da_coq(o)}',
                    key=f'export/{exact}/{nd}/{fs["nvdim"]}/{fs["dtype"]}/{c["unit_arg"]}/{min(fs["n"])}',
@@ -509,9 +763,15 @@ def run_case(c):
     mods = c["mods"]
     xa = apply_mods(f.to_xarray(), fs, mods)
     o = observe_da(xa)
+    snap = attrs_snapshot(xa)
     st, gfield = attempt(lambda: df.Field.from_xarray(xa))
     exact_cmp = exact and not mods.get("inexact")
     bad = rec["oracle"]
+    if observe_da(xa) != o or attrs_snapshot(xa) != snap:
+        bad.append("import-operand-changed")
+    st2, gfield2 = attempt(lambda: df.Field.from_xarray(xa))
+    if st2 != st or (st == "ok" and observe_field(gfield2) != observe_field(gfield)):
+        bad.append("import-not-repeatable")
     removed = set(mods.get("del_attrs", []))
     uneven, numpy_accepts = max_unevenness(o["coords"])
     clearly_uneven = uneven is not None and uneven > F(1, 1000)
@@ -562,16 +822,113 @@ def run_case(c):
                 if cc <= 0:
                     continue
                 s_ = max(abs(v[0]), abs(v[-1]), v[-1] - v[0])
-                if not (close(go["pmin"][a], v[0] - cc / 2, s_, exact_cmp) and close(go["pmax"][a], v[-1] + cc / 2, s_, exact_cmp)):
+                rel = F(1, 10 ** 5) if mods.get("f32") else F(1, 10 ** 9)
+                if not (close(go["pmin"][a], v[0] - cc / 2, s_, exact_cmp, rel) and
+                        close(go["pmax"][a], v[-1] + cc / 2, s_, exact_cmp, rel)):
                     bad.append("rebuild-corners")
             if go["data"] != fo["data"] or go["dtype"] != fo["dtype"]:
                 bad.append("rebuild-values")
     rec["oracle"] = sorted(set(bad))
     ucls = "na" if uneven is None else ("even" if clearly_even else "uneven" if clearly_uneven else "between")
     rec.update(obs=dict(xa=short(o), result=obs),
-               coq=f'CImport {g.b(exact_cmp)} {da_coq(o)} {obs_coq}' if o["numeric"] else None,
+               coq=(f'CImportTol (1 # 100000) {da_coq(o)} {obs_coq}' if mods.get("f32") else
+                    f'CImport {g.b(exact_cmp)} {da_coq(o)} {obs_coq}') if o["numeric"] else None,
                key=f'import/{exact}/{nd}/{fs["nvdim"]}/{c["cls"]}/{st}/{ucls}/{"".join(sorted(a[:2] for a in removed))}/{min(fs["n"])}',
                size=nd + sum(fs["n"]) + fs["nvdim"])
+    return rec
+
+
+def run_state(c, rec):
+    kind = c["kind"]
+    fs = c["field"]
+    nd = len(fs["n"])
+    bad = rec["oracle"]
+    if kind == "inplace":
+        f = build_field(fs)
+        use_field(f)
+        done = apply_inplace(f, c["ops"])
+        st = observe_field(f)
+        # dyadic translations / scalings keep the exact regime; quarter turns use floating cos / sin
+        exact = fs["exact"] and not any("rotate90" in d for d in done)
+        if c["then"] == "export":
+            xa = f.to_xarray(unit=c["unit_arg"]) if c["unit_arg"] is not None else f.to_xarray()
+            o = observe_da(xa)
+            bad += export_oracle(st, o, c["unit_arg"], exact)
+            if observe_field(f) != st:
+                bad.append("export-operand-changed")
+            coq = f'CExport {g.b(exact)} {fspec_coq(state_fs(st), st["data"])} {ostr(c["unit_arg"])} {da_coq(o)}'
+            obs = dict(state=short(st), xa=short(o), done=done)
+        else:
+            s2, gf = attempt(lambda: df.Field.from_xarray(f.to_xarray()))
+            if s2 == "ok":
+                go = observe_field(gf)
+                bad += same_field(st, go, True)
+                obs_coq, obs = f"(Some {field_coq(go)})", dict(state=short(st), result=short(go), done=done)
+            else:
+                bad.append("round-trip-rejected")
+                obs_coq, obs = "None", dict(state=short(st), result=dict(err=gf), done=done)
+            coq = f'CRound {g.b(exact)} {fspec_coq(state_fs(st), st["data"])} {obs_coq}'
+        if st["nvdim"] == 1 and st["vdims"] is not None:
+            rec["tags"] = [TAG_SLABEL]
+        rec["oracle"] = sorted(set(bad))
+        rec.update(obs=obs, coq=coq, key=f'inplace/{exact}/{nd}/{fs["nvdim"]}/{c["then"]}/{"+".join(sorted(set(done)))}',
+                   size=nd + sum(fs["n"]) + fs["nvdim"] + len(done))
+        return rec
+
+    if kind == "pair":
+        fa, fb = build_field(fs), build_field(c["second"])
+        sa, sb = observe_field(fa), observe_field(fb)
+        xa_a = fa.to_xarray()
+        xa_b = fb.to_xarray()
+        oa, ob = observe_da(xa_a), observe_da(xa_b)
+        ea, eb = fs["exact"], c["second"]["exact"]
+        bad += ["first-" + b for b in export_oracle(sa, oa, None, ea)]
+        bad += ["second-" + b for b in export_oracle(sb, ob, None, eb)]
+        ra = attempt(lambda: df.Field.from_xarray(xa_a))
+        rb = attempt(lambda: df.Field.from_xarray(xa_b))
+        for tag_, (s_, r_), st_ in (("first-", ra, sa), ("second-", rb, sb)):
+            if s_ != "ok":
+                bad.append(tag_ + "round-trip-rejected")
+            else:
+                bad += [tag_ + b for b in same_field(st_, observe_field(r_), True)]
+        if observe_field(fa) != sa or observe_field(fb) != sb:
+            bad.append("export-operand-changed")
+        rec["oracle"] = sorted(set(bad))
+        rec.update(obs=dict(first=short(oa), second=short(ob)),
+                   coq=f'CExport {g.b(eb)} {fspec_coq(state_fs(sb), sb["data"])} None {da_coq(ob)}',
+                   key=f'pair/{ea}/{nd}/{fs["nvdim"]}/{fs["dtype"]}', size=nd + sum(fs["n"]) + fs["nvdim"])
+        return rec
+
+    # second generation
+    exact = fs["exact"]
+    f = build_field(fs)
+    fo = observe_field(f)
+    xa1 = f.to_xarray()
+    o1 = observe_da(xa1)
+    s1, g1 = attempt(lambda: df.Field.from_xarray(xa1))
+    if s1 != "ok":
+        rec["oracle"] = ["round-trip-rejected"]
+        rec.update(obs=dict(err=g1), coq=None, key=f'secondgen/{exact}/{nd}/rejected', size=nd + sum(fs["n"]))
+        return rec
+    g1o = observe_field(g1)
+    xa2 = g1.to_xarray()
+    o2 = observe_da(xa2)
+    bad += same_field(fo, g1o, True)
+    bad += ["second-" + b for b in export_oracle(g1o, o2, None, exact)]
+    for key in ("dims", "shape", "coords", "cunits", "vdims", "data", "dtype", "a_cell", "a_pmin", "a_pmax", "a_nvdim", "a_tf"):
+        if o1[key] != o2[key] and not (key == "vdims" and fs["nvdim"] == 1):
+            bad.append("second-export-differs")
+    s2, g2 = attempt(lambda: df.Field.from_xarray(xa2))
+    if s2 != "ok":
+        bad.append("second-round-trip-rejected")
+    else:
+        bad += ["second-" + b for b in same_field(g1o, observe_field(g2), True)]
+    if fs["nvdim"] == 1 and fs["vdims"] is not None:
+        rec["tags"] = [TAG_SLABEL]
+    rec["oracle"] = sorted(set(bad))
+    rec.update(obs=dict(first=short(o1), second=short(o2)),
+               coq=f'CExport {g.b(exact)} {fspec_coq(state_fs(g1o), g1o["data"])} None {da_coq(o2)}',
+               key=f'secondgen/{exact}/{nd}/{fs["nvdim"]}/{fs["dtype"]}/{min(fs["n"])}', size=nd + sum(fs["n"]) + fs["nvdim"])
     return rec
 
 
